@@ -48,12 +48,21 @@ PLAIN = [
     ("takesc2", {"A": ["K", "M"], "B": ["K", "N"], "Z": ["M", "N"]}, ["Z[m, n] = take(A[k, m], B[k, n], c, 2)"]),
     ("takesc0", {"A": ["M"], "B": ["M"], "Z": ["M"]}, ["Z[m] = take(c, A[m], B[m], 2)"]),
     ("takesum", {"A": ["K", "M"], "B": ["K", "M"], "C": ["K", "M"], "Z": ["M"]}, ["Z[m] = take(A[k, m], B[k, m], 0) + d * C[k, m]"]),
+    # the same scalar in more than one term (per-term bookkeeping of which factors enter the update)
+    ("scal2terms", {"A": ["M"], "B": ["M"], "Z": ["M"]}, ["Z[m] = a * A[m] + a * B[m]"]),
+    ("scalprodtake", {"A": ["M"], "B": ["M"], "Z": ["M"]}, ["Z[m] = a * A[m] + take(a, B[m], 1)"]),
+    ("scaltakeprod", {"A": ["M"], "B": ["M"], "Z": ["M"]}, ["Z[m] = take(a, A[m], 1) + a * B[m]"]),
+    ("scaltakesel", {"A": ["M"], "B": ["M"], "Z": ["M"]}, ["Z[m] = a * A[m] + take(B[m], a, 1)"]),
+    ("scaltake2", {"A": ["K", "M"], "B": ["K", "M"], "Z": ["M"]}, ["Z[m] = take(a, A[k, m], 0) + take(a, B[k, m], 1)"]),
     ("elem", {"A": ["M", "N"], "B": ["M", "N"], "Z": ["M", "N"]}, ["Z[m, n] = A[m, n] * B[m, n]"]),
     ("elem3", {"A": ["M"], "B": ["M"], "C": ["M"], "Z": ["M"]}, ["Z[m] = A[m] * B[m] * C[m]"]),
     ("ttv", {"A": ["K", "M", "N"], "B": ["N"], "Z": ["K", "M"]}, ["Z[k, m] = A[k, m, n] * B[n]"]),
     ("mttkrp", {"T": ["I", "K", "L"], "B": ["K", "J"], "C": ["L", "J"], "Z": ["I", "J"]},
      ["Z[i, j] = T[i, k, l] * B[k, j] * C[l, j]"]),
     ("outtr", {"A": ["K", "M"], "B": ["K", "N"], "Z": ["N", "M"]}, ["Z[n, m] = A[k, m] * B[k, n]"]),
+    # output-only ranks (explicit shape= on the output constructor, iteration over the rank's extent)
+    ("outonly", {"A": ["K", "M"], "Z": ["M", "N"]}, ["Z[m, n] = A[k, m]"]),
+    ("outonly2", {"A": ["M"], "B": ["M"], "Z": ["N", "M", "P"]}, ["Z[n, m, p] = A[m] * B[m]"]),
 ]
 
 
@@ -88,9 +97,21 @@ def rank_order_variants(decl, tier):
     return out
 
 
+def plain_tags(name, exprs):
+    """static features of the expression that known-finding signatures may refer to"""
+    from .dense import parse_einsum
+    tags = {"family": "plain", "template": name}
+    for e in exprs:
+        _, terms = parse_einsum(e)
+        if len(terms) > 1 and any(kind == "take" and facs[sel][0] == "var" for kind, facs, sel in terms):
+            tags["take_var_in_sum"] = True
+    return tags
+
+
 def f_plain(tier="quick", seed=0):
     specs = []
     for name, decl, exprs in PLAIN:
+        tags = plain_tags(name, exprs)
         ranks = ranks_of(exprs[0])
         out = out_name(exprs[0])
         variants = [0] if tier == "quick" else [0, 1]
@@ -103,10 +124,10 @@ def f_plain(tier="quick", seed=0):
                         m["rank-order"] = ro
                     specs.append({"name": "plain/%s/lo=%s/ro=%d/x=%d" % (name, "".join(lo), ri, v),
                                   "decl": decl, "exprs": exprs, "mapping": m,
-                                  "extents": assign_extents(ranks, v)})
+                                  "extents": assign_extents(ranks, v), "tags": dict(tags)})
         # no mapping at all
         specs.append({"name": "plain/%s/nomap" % name, "decl": decl, "exprs": exprs, "mapping": {},
-                      "extents": assign_extents(ranks, 0)})
+                      "extents": assign_extents(ranks, 0), "tags": dict(tags)})
     if tier == "thorough" and len(specs) > 6000:
         rnd = random.Random(seed)
         keep = [s for s in specs if "/ro=0/" in s["name"] or "/ro=1/" in s["name"] or s["name"].endswith("nomap")]
@@ -123,6 +144,8 @@ SHAPE_TEMPLATES = [
     ("red", {"A": ["K", "M"], "Z": ["M"]}, ["Z[m] = A[k, m]"]),
     ("elem", {"A": ["M", "N"], "B": ["M", "N"], "Z": ["M", "N"]}, ["Z[m, n] = A[m, n] * B[m, n]"]),
     ("sum2", {"A": ["K", "M"], "B": ["K", "M"], "Z": ["M"]}, ["Z[m] = A[k, m] + B[k, m]"]),
+    # an output-only rank: the output constructor carries an explicit shape=
+    ("outonly", {"A": ["K", "M"], "Z": ["M", "N"]}, ["Z[m, n] = A[k, m]"]),
     ("take", {"A": ["K", "M"], "B": ["K", "N"], "Z": ["M", "N"]}, ["Z[m, n] = take(A[k, m], B[k, n], 1)"]),
     # rank names that end in the letter the compiler uses to mark temporary occupancy ranks
     ("gemm-ijk", {"A": ["I", "K"], "B": ["K", "J"], "Z": ["I", "J"]}, ["Z[i, j] = A[i, k] * B[k, j]"]),
@@ -394,6 +417,13 @@ def f_occ(tier="quick", seed=0):
         for s in (1, 2, 3):
             add(name, decl, exprs, {"(%s, %s)" % (a, b): ["flatten()"], fl: ["uniform_occupancy(A.%d)" % s]},
                 [[fl + "1", fl + "0"], ["N"]], ext, tag="flat(%s,%s)+oA%d" % (a, b, s))
+    # two occupancy levels below a flatten, with tensors (B, Z) that lack one of the flattened ranks
+    for a, b in (("K", "M"), ("M", "K")):
+        fl = a + b
+        for s1, s2 in ((3, 2), (4, 1), (6, 3)):
+            add(name, decl, exprs, {"(%s, %s)" % (a, b): ["flatten()"],
+                                    fl: ["uniform_occupancy(A.%d)" % s1, "uniform_occupancy(A.%d)" % s2]},
+                [[fl + "2", fl + "1", fl + "0"], ["N"]], {"K": 3, "M": 2, "N": 2}, tag="flat(%s,%s)+oA%doA%d" % (a, b, s1, s2))
     for a, b in (("M", "K0"), ("K0", "M")):
         fl = a + b
         ext = {"K": 4, "M": 2, "N": 2}
@@ -442,6 +472,11 @@ def f_occ(tier="quick", seed=0):
          {"M": 2, "K": 2, "J": 3, "N": 1})
     core("flat3-lookup", {"A": ["M", "K", "J"], "B": ["K", "J", "N"], "Z": ["M", "N"]}, ["Z[m, n] = A[m, k, j] * B[k, j, n]"],
          {"(M, K, J)": ["flatten()"]}, ["MKJ", "N"], {"M": 2, "K": 2, "J": 2, "N": 2})
+    # one flattened loop binds two output ranks at once (the output is looked up by both coordinates)
+    core("flat3-out2-lookup", {"A": ["K", "M", "N"], "B": ["K"], "Z": ["M", "N"]}, ["Z[m, n] = A[k, m, n] * B[k]"],
+         {"(K, M, N)": ["flatten()"]}, ["KMN"], {"K": 2, "M": 2, "N": 2})
+    core("flat3-out2-lookup-last", {"A": ["M", "N", "K"], "B": ["K"], "Z": ["M", "N"]}, ["Z[m, n] = A[m, n, k] * B[k]"],
+         {"(M, N, K)": ["flatten()"], "MNK": ["uniform_occupancy(A.3)"]}, ["MNK1", "MNK0"], {"K": 2, "M": 2, "N": 2})
     core("flat-out-adjacent", {"A": ["K", "M", "N"], "B": ["K", "M", "N"], "Z": ["M", "N"]}, ["Z[m, n] = A[k, m, n] * B[k, m, n]"],
          {"(M, N)": ["flatten()"]}, ["K", "MN"], {"K": 2, "M": 2, "N": 2})
     gd = {"A": ["K", "M"], "B": ["K", "N"], "Z": ["M", "N"]}
@@ -737,6 +772,15 @@ def f_cascade(tier="quick", seed=0):
     add("split-own-rank-producer", {"A": ["K", "M"], "B": ["K", "N"], "C": ["M", "N"], "T": ["M", "N"], "Z": ["M", "N"]},
         ["T[m, n] = A[k, m] * B[k, n]", "Z[m, n] = T[m, n] * C[m, n]"],
         {"partitioning": {"T": {"M": ["uniform_shape(2)"]}}, "loop-order": {"T": ["M1", "K", "N", "M0"]}}, {"K": 2, "M": 3, "N": 2})
+    # an input read by two Einsums; the first one swizzles it (no rank-order entry, not partitioned)
+    d9 = {"A": ["K", "M"], "B": ["K", "N"], "T": ["M", "N"], "Z": ["M"]}
+    ex9 = ["T[m, n] = A[k, m] * B[k, n]", "Z[m] = T[m, n] * A[k, m]"]
+    add("shared-input/nomap", d9, ex9, {}, {"K": 2, "M": 2, "N": 2})
+    add("shared-input/lo", d9, ex9, {"loop-order": {"T": ["M", "N", "K"], "Z": ["M", "N", "K"]}}, {"K": 2, "M": 2, "N": 2})
+    add("shared-input/lo2", d9, ex9, {"loop-order": {"T": ["N", "M", "K"], "Z": ["K", "M", "N"]}}, {"K": 2, "M": 2, "N": 2})
+    add("shared-input/three", {"A": ["K", "M"], "B": ["K", "M"], "T": ["M"], "Y": ["M"], "Z": ["K"]},
+        ["T[m] = A[k, m]", "Y[m] = T[m] * B[k, m]", "Z[k] = A[k, m] * B[k, m] * Y[m]"],
+        {"loop-order": {"T": ["M", "K"], "Y": ["M", "K"], "Z": ["K", "M"]}}, {"K": 2, "M": 3})
     # a partitioned rank named I (rank names ending in the temporary-marker letter)
     d8 = {"A": ["I", "K"], "B": ["K", "J"], "Z": ["I", "J"], "Y": ["I"]}
     add("ijk/part", d8, ["Z[i, j] = A[i, k] * B[k, j]", "Y[i] = Z[i, j]"],
@@ -772,6 +816,18 @@ def _st_bases():
          {"O": {"Q": ["uniform_shape(2)"], "W": ["follow(Q)"]}}, ["Q1", "W0", "Q0"], {"Q": 4, "S": 2, "W": 5}),
         ("sum2", {"A": ["K", "M"], "B": ["K", "M"], "Z": ["M"]}, ["Z[m] = A[k, m] + B[k, m]"], {}, ["M", "K"], {"K": 2, "M": 2}),
         ("dot", {"A": ["K"], "B": ["K"], "Z": []}, ["Z[] = A[k] * B[k]"], {}, ["K"], {"K": 3}),
+        # three levels of one rank with an occupancy split below another split (intermediate node in the partitioning graph)
+        ("gemm-shape+occ-M", g, ge, {"Z": {"M": ["uniform_shape(2)", "uniform_occupancy(A.1)"]}}, ["M2", "K", "M1", "N", "M0"],
+         {"K": 2, "M": 4, "N": 2}),
+        ("gemm-occ2-K", g, ge, {"Z": {"K": ["uniform_occupancy(A.3)", "uniform_occupancy(A.2)"]}}, ["K2", "K1", "M", "N", "K0"],
+         {"K": 4, "M": 2, "N": 2}),
+        # loops over a flattened rank with two co-iterated inputs (payload tuples whose first and last members are tuples)
+        ("elem-flat", {"A": ["M", "N"], "B": ["M", "N"], "Z": ["M", "N"]}, ["Z[m, n] = A[m, n] * B[m, n]"],
+         {"Z": {"(M, N)": ["flatten()"]}}, ["MN"], {"M": 2, "N": 2}),
+        ("elem-flat-occ", {"A": ["M", "N"], "B": ["M", "N"], "Z": ["M", "N"]}, ["Z[m, n] = A[m, n] * B[m, n]"],
+         {"Z": {"(M, N)": ["flatten()"], "MN": ["uniform_occupancy(A.2)"]}}, ["MN1", "MN0"], {"M": 2, "N": 2}),
+        ("elem3-flat-occ", {"A": ["K", "M", "N"], "B": ["K", "M", "N"], "Z": ["M", "N"]}, ["Z[m, n] = A[k, m, n] * B[k, m, n]"],
+         {"Z": {"(M, N)": ["flatten()"], "MN": ["uniform_occupancy(A.2)"]}}, ["K", "MN1", "MN0"], {"K": 2, "M": 2, "N": 2}),
     ]
 
 
@@ -901,7 +957,7 @@ def mini_metrics_yaml(loop, isect, style, ro, lead="A", levels=None, names=("A",
     return y
 
 
-def cascade_metrics_spec(muls, name, outs=("T", "U", "Z"), seq=None, host=None, config_last=False):
+def cascade_metrics_spec(muls, name, outs=("T", "U", "Z"), seq=None, host=None, config_last=False, isect=None, bind_order=None):
     """three chained element-wise Einsums on one accelerator; muls = which multiplier each Einsum is bound to;
     outs = names of the three outputs (program order); seq = Einsums (by position) that also bind the sequencer"""
     ranks = ["M", "N"]
@@ -921,13 +977,20 @@ def cascade_metrics_spec(muls, name, outs=("T", "U", "Z"), seq=None, host=None, 
         y += "      - name: Mul%d\n        class: compute\n        attributes:\n          type: mul\n" % i
     if seq is not None:
         y += "      - name: Seq\n        class: Sequencer\n        attributes:\n          num_ranks: 2\n"
+    if isect is not None:
+        # one intersection unit, bound to a different rank in different Einsums (isect: position -> rank)
+        y += "      - name: Isect\n        class: Intersector\n        attributes:\n          type: two-finger\n"
     if host is not None:
         # a second configuration on which an Einsum runs with nothing bound
         y += ("  Host:\n  - name: System\n    attributes:\n      clock_frequency: 103\n    local:\n"
               "    - name: HostMem\n      class: DRAM\n      attributes:\n        bandwidth: 223\n")
     y += "bindings:\n"
     ins = {o0: ["A", "B"], o1: [o0, "C"], o2: [o1, "D"]}
-    for pos, (e, mu) in enumerate(zip((o0, o1, o2), muls)):
+    written = list(enumerate(zip((o0, o1, o2), muls)))
+    if bind_order is not None:
+        # the keys of the bindings mapping carry no order: write the Einsums' entries in another order
+        written = [written[i] for i in bind_order]
+    for pos, (e, mu) in written:
         if host is not None and pos in host:
             y += "  %s:\n  - config: Host\n    prefix: tmp/%s\n" % (e, e)
             continue
@@ -943,6 +1006,8 @@ def cascade_metrics_spec(muls, name, outs=("T", "U", "Z"), seq=None, host=None, 
         y += "  - component: Mul%d\n    bindings:\n    - op: mul\n" % mu
         if seq is not None and pos in seq:
             y += "  - component: Seq\n    bindings:\n    - rank: M\n    - rank: N\n"
+        if isect is not None and pos in isect:
+            y += "  - component: Isect\n    bindings:\n    - rank: %s\n" % isect[pos]
         if config_last:
             y += cfg
     from . import spec as S
@@ -1092,12 +1157,19 @@ def f_metrics(tier="quick", seed=0):
     specs.append(cascade_metrics_spec((0, 1, 2), "metrics/cascade3/names=PGE/mul=012", outs=("P", "G", "E")))
     specs.append(cascade_metrics_spec((0, 1, 0), "metrics/cascade3/names=T8T9T10/mul=010", outs=("T8", "T9", "T10")))
     specs.append(cascade_metrics_spec((0, 1, 2), "metrics/cascade3/seq=01", seq=(0, 1)))
+    for lab, isx in (("M-N", {0: "M", 1: "N"}), ("N-M", {0: "N", 1: "M"}), ("N--M", {0: "N", 2: "M"}), ("M-M-N", {0: "M", 1: "M", 2: "N"})):
+        specs.append(cascade_metrics_spec((0, 1, 2), "metrics/cascade3/isect=%s" % lab, isect=isx))
     specs.append(cascade_metrics_spec((0, 1, 2), "metrics/cascade3/seq=02", seq=(0, 2)))
     specs.append(cascade_metrics_spec((0, 1, 2), "metrics/cascade3/seq=12/names=ZYX", outs=("Z", "Y", "X"), seq=(1, 2)))
     # an Einsum on another configuration with nothing bound, between / after two Einsums that could otherwise fuse
     specs.append(cascade_metrics_spec((0, 1, 1), "metrics/cascade3/host=middle", host=(1,)))
     specs.append(cascade_metrics_spec((0, 1, 2), "metrics/cascade3/host=last", host=(2,)))
     specs.append(cascade_metrics_spec((0, 1, 2), "metrics/cascade3/host=first", host=(0,)))
+    for bo in ((2, 0, 1), (1, 2, 0), (2, 1, 0)):
+        for hs in ((2,), (0,), (1,)):
+            specs.append(cascade_metrics_spec((0, 1, 2), "metrics/cascade3/host=%d/bindings-written=%s" % (hs[0], "".join(map(str, bo))),
+                                              host=hs, bind_order=bo))
+    specs.append(cascade_metrics_spec((0, 1, 0), "metrics/cascade3/mul=010/bindings-written=201", bind_order=(2, 0, 1)))
     # the config entry listed after the component entries
     specs.append(cascade_metrics_spec((0, 1, 0), "metrics/cascade3/config-last/mul=010", config_last=True))
     specs.append(cascade_metrics_spec((0, 0, 0), "metrics/cascade3/config-last/mul=000", config_last=True))
@@ -1181,7 +1253,7 @@ def f_metrics(tier="quick", seed=0):
     specs.append(merger_spec("flat", {"A": ["N", "K", "M"], "Z": ["N"]}, ["Z[n] = A[n, k, m]"], {"(M, K)": ["flatten()"]}, ["N", "MK"],
                              ["N", "MK"], ["MK", "N"], ["N", "MK"], {"K": 2, "M": 2, "N": 2}))
     # three bound memory levels (two distinct source memories at levels with different instance counts), both binding orders
-    def three_level(order, styles=("lazy", "lazy")):
+    def three_level(order, styles=("lazy", "lazy"), hbm=False):
         def fmt(t, ranks):
             yy = "  %s:\n    default:\n      rank-order: [%s]\n" % (t, ", ".join(ranks))
             for r in ranks:
@@ -1195,6 +1267,18 @@ def f_metrics(tier="quick", seed=0):
               "      - name: PE[0..6]\n        local:\n        - name: L1\n          class: Buffet\n          attributes:\n"
               "            width: 64\n            depth: 64\n"
               "        - name: Mul\n          class: compute\n          attributes:\n            type: mul\n")
+
+        if hbm:
+            # the backing store declared in a replicated level (one DRAM per stack)
+            y = "format:\n" + fmt("A", ["M", "K"]) + fmt("B", ["K", "N"]) + fmt("Z", ["M", "N"])
+            y += ("architecture:\n  Acc:\n  - name: System\n    attributes:\n      clock_frequency: 101\n    subtree:\n"
+                  "    - name: Stack[0..4]\n      local:\n      - name: Mem\n        class: DRAM\n        attributes:\n          bandwidth: 211\n"
+                  "      subtree:\n"
+                  "      - name: Cluster[0..2]\n        local:\n        - name: L2\n          class: Buffet\n          attributes:\n"
+                  "            width: 64\n            depth: 1024\n            bandwidth: 223\n        subtree:\n"
+                  "        - name: PE[0..6]\n          local:\n          - name: L1\n            class: Buffet\n            attributes:\n"
+                  "              width: 64\n              depth: 64\n"
+                  "          - name: Mul\n            class: compute\n            attributes:\n              type: mul\n")
 
         def b(comp, extra=""):
             out = "  - component: %s\n    bindings:\n" % comp
@@ -1213,7 +1297,7 @@ def f_metrics(tier="quick", seed=0):
         y += "  - component: Mul\n    bindings:\n    - op: mul\n"
         secs = S.split_sections(y)
         lo = ["M", "K", "N"]
-        return {"name": "metrics/three-level/%s/%s-%s" % (order, styles[0], styles[1]), "decl": decl, "exprs": exprs,
+        return {"name": "metrics/three-level%s/%s/%s-%s" % ("-hbm" if hbm else "", order, styles[0], styles[1]), "decl": decl, "exprs": exprs,
                 "mapping": {"loop-order": {"Z": lo}, "spacetime": {"Z": {"space": [], "time": lo}}},
                 "extents": {"K": 3, "M": 2, "N": 2}, "sizes": {}, "arch": secs["architecture"], "bindings": secs["bindings"],
                 "format": secs["format"], "tags": {"family": "metrics", "template": "three-level", "leader_first": True}}
@@ -1222,6 +1306,8 @@ def f_metrics(tier="quick", seed=0):
     specs.append(three_level("L2-first", ("eager", "lazy")))
     specs.append(three_level("L2-first", ("lazy", "eager")))
     specs.append(three_level("L1-first", ("eager", "eager")))
+    specs.append(three_level("L2-first", hbm=True))
+    specs.append(three_level("L1-first", ("eager", "lazy"), hbm=True))
     # partitioned variant (explicit shapes with interleaved levels)
     for lo in (["M1", "N", "K", "M0"], ["N", "M1", "M0", "K"], ["K", "M1", "N", "M0"]):
         for isect in (None, "two-finger", "leader-follower"):
